@@ -554,7 +554,8 @@ func VerifH_C04_Contexts() {
 
 // ---------------------------------------------------------------- leafref path-arg (RFC 6020 §12)
 
-var lrAlphabet = []string{"/", "..", "a", "p:b", "q:c", "[", "]", "=", "current", "(", ")", "*", "1", "'x'", "."}
+// "aé" and "p:b·c" are XML names but not RFC 6020 identifiers (ASCII only): never node identifiers
+var lrAlphabet = []string{"/", "..", "a", "p:b", "q:c", "[", "]", "=", "current", "(", ")", "*", "1", "'x'", ".", "aé", "p:b·c"}
 
 type lrRec struct {
 	toks []string
